@@ -16,6 +16,14 @@ from harness.c02 import (_prepare, batch_oracle, classify_member, decode_entry, 
 from tools.facts.common import fresh_import
 
 
+def take(transport):
+    """[(decoded JSON message, length in bytes without the frame's newline)] written since the
+    last call"""
+    data = b''.join(transport.out)
+    transport.out.clear()
+    return [(json.loads(m), len(m)) for m in data.split(b'\n') if m]
+
+
 async def run_scenario(mods, case):
     jr, rawsocket, session_mod = mods
     proto = getattr(jr, PROTO_CLASS[case['proto']])
@@ -46,14 +54,15 @@ async def run_scenario(mods, case):
         rec = await _single(jr, p, transport, session, case, gates, seen_notifs)
         logging.disable(logging.NOTSET)
         return rec
-    rec = {'raised': None, 'calls': [], 'lens': [], 'exc': None, 'items': None}
+    rec = {'raised': None, 'calls': [], 'lens': [], 'exc': None, 'items': None, 'rawlens': [],
+           'extra': 0}
     p.data_received(json.dumps(case['members']).encode() + b'\n')
     await settle(10)
-    first = transport.take_messages()
+    first = take(transport)
     if first:
-        rec['raised'] = [decode_entry(x) for x in first[0]] if isinstance(first[0], list) else 'no-message'
-        if len(first) > 1:
-            rec['exc'] = 'ExtraMessages'
+        rec['raised'] = [decode_entry(x) for x in first[0][0]] if isinstance(first[0][0], list) \
+            else [('?', 'single-message')]
+        rec['extra'] += len(first) - 1
     inforce = getattr(jr, PROTO_CLASS[case.get('inforce', case['proto'])])
     kinds = [classify_member(case.get('inforce', case['proto']), m) for m in case['members']]
     for m in case['order']:
@@ -61,15 +70,13 @@ async def run_scenario(mods, case):
         rec['lens'].append(len(inforce.response_message(result, kinds[m][1])))
         gates.setdefault(m, asyncio.Event()).set()
         await settle(10)
-        out = transport.take_messages()
-        if len(out) > 1:
-            rec['exc'] = 'ExtraMessages'
-        rec['calls'].append([decode_entry(x) for x in out[0]] if out and isinstance(out[0], list)
+        out = take(transport)
+        rec['extra'] += max(0, len(out) - 1)
+        rec['calls'].append([decode_entry(x) for x in out[0][0]] if out and isinstance(out[0][0], list)
                             else ([('?', 'single-message')] if out else None))
+        rec['rawlens'].append(out[0][1] if out else None)
     await settle(6)
-    late = transport.take_messages()
-    if late:
-        rec['exc'] = 'LateMessages'
+    rec['extra'] += len(take(transport))
     nnotif = sum(1 for k in kinds if k[0] == 'notif')
     rec['notifs_handled'] = len(seen_notifs)
     rec['notifs_expected'] = nnotif
@@ -80,29 +87,28 @@ async def run_scenario(mods, case):
 
 async def _single(jr, p, transport, session, case, gates, seen_notifs):
     """one request / notification through the serving session: what is written"""
-    rec = {'exc': None, 'reply': None, 'len': 0, 'items': None, 'raised': None}
+    rec = {'exc': None, 'reply': None, 'len': 0, 'items': None, 'raised': None, 'extra': 0}
     p.data_received(json.dumps(case['single']).encode() + b'\n')
     await settle(10)
-    first = transport.take_messages()
+    first = [m for m, _n in take(transport)]
     kind = classify_member(case.get('inforce', case['proto']), case['single'])
     if first:
         rec['raised'] = decode_entry(first[0])
+        rec['extra'] += len(first) - 1
     if kind[0] == 'req':
         inforce = getattr(jr, PROTO_CLASS[case.get('inforce', case['proto'])])
         result, _ = result_for(jr, 0, case.get('err'))
         rec['len'] = len(inforce.response_message(result, kind[1]))
         gates.setdefault(0, asyncio.Event()).set()
         await settle(10)
-        out = transport.take_messages()
-        if len(out) > 1:
-            rec['exc'] = 'ExtraMessages'
+        out = [m for m, _n in take(transport)]
+        rec['extra'] += max(0, len(out) - 1)
         rec['items'] = ['r']
         rec['reply'] = decode_entry(out[0]) if out else None
     elif kind[0] == 'notif':
         rec['items'] = ['n'] if seen_notifs else ['?']
     await settle(4)
-    if transport.take_messages():
-        rec['exc'] = 'LateMessages'
+    rec['extra'] += len(take(transport))
     await session.close()
     return rec
 
